@@ -129,7 +129,12 @@ def run_query(spec):
                       for i in infos if i["op"] != "start"]
       if spec.get("replay") and ok:
         from vf.e2 import harness
-        rep = getattr(harness, spec["replay"])(sc, sysm, r, states, infos, out.get("loop"))
+        rep = None
+        for attempt in range(3):       # real threads under a loaded machine: a turn that is not taken in time is retried, never reported
+          rep = getattr(harness, spec["replay"])(sc, sysm, r, states, infos, out.get("loop"))
+          if rep.get("matched"):
+            break
+        rep["attempts"] = attempt + 1
         out["replay"] = rep
       out.pop("steps", None)
       out["inputs"] = {k: v for k, v in r["inputs"].items() if k.startswith("in.")}
